@@ -100,6 +100,10 @@ func (m *model) step(op opSpec, r opResult) (bool, string) {
 				return true, ""
 			}
 			if r.Err != "" {
+				// an empty seat that somebody reserved may be kept for him
+				if m.res[op.Seat] {
+					return true, ""
+				}
 				return false, "join of an empty seat refused (" + r.Err + ")"
 			}
 			if r.Seat != op.Seat {
